@@ -114,7 +114,7 @@ type concNode struct {
 	ivals       []ival
 	maxInflight int
 	lastDone    time.Time // when the latest request completed
-	recent      []string // the last completed requests (ring)
+	recent      []string  // the last completed requests (ring)
 	attributed  map[string]bool
 	deadOnce    bool
 
@@ -423,8 +423,8 @@ func lockBlocked(state string) bool {
 }
 
 type dumpVerdict struct {
-	BlockedFrames []string `json:"blocked_frames"`          // innermost product frames of handler goroutines blocked on a lock
-	Components    []string `json:"components"`              // the receiver types (or packages) of those frames: whose lock it is
+	BlockedFrames []string `json:"blocked_frames"`                    // innermost product frames of handler goroutines blocked on a lock
+	Components    []string `json:"components"`                        // the receiver types (or packages) of those frames: whose lock it is
 	Nested        []string `json:"blocked_inside_the_same_component"` // blocked frame <- outer frame of the same receiver type on the same stack (re-entrant use)
 	Blocked       int      `json:"handler_goroutines_blocked_on_a_lock"`
 	OtherWaiting  []string `json:"handler_goroutines_waiting_elsewhere"`
@@ -436,7 +436,7 @@ type dumpVerdict struct {
 func judgeDump(gs []gor) dumpVerdict {
 	var v dumpVerdict
 	set := map[string]bool{}
-	pkgs := map[string]bool{} // the components on the stacks of the blocked handlers
+	pkgs := map[string]bool{}        // the components on the stacks of the blocked handlers
 	pkgOf := func(f string) string { // src/wallet.(*Service).View -> src/wallet
 		f = strings.TrimPrefix(f, "src/")
 		if i := strings.IndexAny(f, "./"); i > 0 {
@@ -914,7 +914,8 @@ func (h *harness) runConc(cj concJob) {
 				var q *apifix.Req
 				origin := "contended"
 				switch {
-				case rng.Intn(100) < 20 && !(cj.Race && strings.Contains(e.Path, "/wallet")):
+				case rng.Intn(100) < 20 && !(cj.Race && strings.Contains(e.Path, "/wallet")) && !(e.Path == "/api/v1/wallet/unload" && rng.Intn(10) != 0):
+					// (an unloaded wallet stays away for the rest of the node's life: the contended ones are rarely unloaded)
 					q, origin = g.Generate(e), "grammar"
 				case e.Wallet == "" || len(all) == 0 || e.Path == "/api/v1/wallet/unload" || e.Path == "/api/v2/wallet/recover":
 					q = g.WellFormedFor(e, nil)
